@@ -94,7 +94,8 @@ where
     }
 
     fn get_indentation(&self) -> usize {
-        if self.in_mixed() {
+        // inside xml:space="preserve" no whitespace may be added at all
+        if self.in_mixed() || self.in_space_preserve() {
             return 0;
         }
         let mut count = 0;
@@ -178,7 +179,8 @@ where
             }
             EndTag(_) => {
                 let indentation = if self.xot.first_child(node).is_some() {
-                    let no_indentation = self.in_mixed();
+                    // the end tag is still inside the element's content
+                    let no_indentation = self.in_mixed() || self.in_space_preserve();
                     self.pop();
                     if !no_indentation {
                         self.get_indentation()
